@@ -10,7 +10,10 @@ HERE="$(cd "$(dirname "$0")" && pwd)"
 export GOFLAGS=-mod=mod GOPROXY=off GOSUMDB=off GOTOOLCHAIN=local; unset GOWORK
 PROP="$1"; BIN="$HERE/checker/bin/dawnlint"; REPO="${VERIF_REPO:-/repo}"
 EXTRA=$(mktemp /tmp/dawnlint-extra.XXXXXX.json)
-trap 'rm -f "$EXTRA"' EXIT
+# the sensitivity runs analyse ~90 scratch copies, each under a path of its own: their build artefacts go into a
+# private build cache that is removed at the end (about 7 MB per copy would otherwise stay in the user's cache)
+SCACHE=$(mktemp -d /tmp/dawnlint-gocache.XXXXXX)
+trap 'rm -f "$EXTRA"; chmod -R u+w "$SCACHE" 2>/dev/null; rm -rf "$SCACHE"' EXIT
 rc=0
 CONF_JSON=""
 for cfg in windows/amd64 darwin/arm64 linux/386; do
@@ -26,6 +29,7 @@ for cfg in windows/amd64 darwin/arm64 linux/386; do
 done
 SENS_JSON=""
 det=0; app=0
+export GOCACHE="$SCACHE"
 for patch in "$HERE"/mutants/$PROP-*.patch "$HERE"/seeded/$PROP*/patch.diff "$HERE"/mutants/neutral-*.patch; do
   [ -f "$patch" ] || continue
   name=$(basename "$patch" .patch)
@@ -41,6 +45,7 @@ for patch in "$HERE"/mutants/$PROP-*.patch "$HERE"/seeded/$PROP*/patch.diff "$HE
   echo "sensitivity $name: $st"
   SENS_JSON="$SENS_JSON{\"mutant\":\"$name\",\"outcome\":\"$st\"},"
 done
+unset GOCACHE
 echo "{\"configurations\":[${CONF_JSON%,}],\"sensitivity\":[${SENS_JSON%,}],\"sensitivity_detected\":$det,\"sensitivity_applicable\":$app}" > "$EXTRA"
 "$BIN" -property "$PROP" -tier thorough -repo "$REPO" -verif "$HERE" -extra "$EXTRA"; code=$?
 [ $code -ne 0 ] && rc=$code
